@@ -305,9 +305,30 @@ ST2 = (1, 1, 2)
 NEG = (1, 1, -1)
 
 
+def _program_body(E, w, prog):
+    """programs whose slices and rechunks the optimizer absorbs into the read (several reads of one source in one graph
+    included): the materialized graph returns NumPy's elements"""
+    from symx.sarr import same_array
+
+    from . import catalog
+
+    m = catalog.stages(E, w, prog.node, {"materialized"})["materialized"]
+    whole, dsk, r = catalog.run_tree(E, m, prog.node.chunks, "materialized", check_shapes=True)
+    same_array(E, whole, prog.ref, label="read-values", skolem="pm")
+
+
+def _program_instances(tier):
+    from . import catalog
+
+    names = ("rechunk(x2->3)", "rechunk(x2x2->1x3)", "rechunk(x2->2)[a:b]", "rechunk(x3[a:b])", "rechunk(rechunk(x2->3)->2)",
+             "slice(x3)[a:b]", "x2x2[a:b][c:d](fused slices)")
+    return catalog.make_instances(tier, "C24", _program_body, "FromArray._accept_slice/_accept_rechunk/_with_chunks inside programs",
+                                  select=lambda name: name in names or "two regions" in name)
+
+
 def instances(tier):
     q = tier == "quick"
-    out = []
+    out = _program_instances(tier)
     for kind in ("store", "ndarray"):
         for m in ([1, 2, 3] if q else [1, 2, 3, 4]):
             out.append(inst_chain(kind, (m,), [(F,)]))
